@@ -8,8 +8,10 @@ package main
 
 import (
 	"fmt"
+	"go/token"
 	"go/types"
 	"sort"
+	"strings"
 
 	"golang.org/x/tools/go/ssa"
 )
@@ -69,12 +71,15 @@ type originAnalysis struct {
 	f     *ssa.Function
 	memo  map[ssa.Value]origin
 	cells map[*ssa.Alloc]origin // origin of reference content stored in local allocs
+	// the same per first field of a local record ("*" = stored as a whole): what is read from c.A is what was
+	// put into c.A, not what was put into c.B. Used only for records whose address goes nowhere else.
+	fcells map[*ssa.Alloc]map[string]origin
 	ret   func(g *ssa.Function) origin
 	depth int
 }
 
 func newOriginAnalysis(f *ssa.Function, ret func(g *ssa.Function) origin) *originAnalysis {
-	oa := &originAnalysis{f: f, memo: map[ssa.Value]origin{}, cells: map[*ssa.Alloc]origin{}, ret: ret}
+	oa := &originAnalysis{f: f, memo: map[ssa.Value]origin{}, cells: map[*ssa.Alloc]origin{}, fcells: map[*ssa.Alloc]map[string]origin{}, ret: ret}
 	// fixpoint over cell contents
 	for iter := 0; iter < 8; iter++ {
 		changed := false
@@ -84,13 +89,24 @@ func newOriginAnalysis(f *ssa.Function, ret func(g *ssa.Function) origin) *origi
 			if !ok {
 				return
 			}
-			if a, _, ok := rootAlloc(st.Addr); ok {
+			if a, pth, ok := rootAlloc(st.Addr); ok {
 				o := oa.of(st.Val)
 				if !hasRefs(st.Val.Type()) {
 					return
 				}
 				if oa.cells[a]|o != oa.cells[a] {
 					oa.cells[a] |= o
+					changed = true
+				}
+				key := "*"
+				if len(pth) > 0 && strings.HasPrefix(pth[0], ".") {
+					key = pth[0]
+				}
+				if oa.fcells[a] == nil {
+					oa.fcells[a] = map[string]origin{}
+				}
+				if oa.fcells[a][key]|o != oa.fcells[a][key] {
+					oa.fcells[a][key] |= o
 					changed = true
 				}
 			}
@@ -147,7 +163,13 @@ func (oa *originAnalysis) of1(v ssa.Value) origin {
 		return o
 	case *ssa.UnOp:
 		if x.Op.String() == "*" {
-			if a, _, ok := rootAlloc(x.X); ok {
+			if a, pth, ok := rootAlloc(x.X); ok {
+				if len(pth) > 0 && strings.HasPrefix(pth[0], ".") && recordStaysLocal(a) {
+					if c := oa.fcells[a][pth[0]] | oa.fcells[a]["*"]; c != 0 {
+						return c
+					}
+					return oFresh
+				}
 				if c := oa.cells[a]; c != 0 {
 					return c
 				}
@@ -509,4 +531,28 @@ func apiArgWrites(root *ssa.Function) []string {
 	}
 	sort.Strings(out)
 	return dedupe(out)
+}
+
+// recordStaysLocal: the address of the local record a is used for nothing but reaching its fields, storing
+// the record as a whole and loading it: nobody else can have put anything into it.
+func recordStaysLocal(a *ssa.Alloc) bool {
+	if a.Referrers() == nil {
+		return false
+	}
+	for _, r := range *a.Referrers() {
+		switch x := r.(type) {
+		case *ssa.FieldAddr, *ssa.DebugRef:
+		case *ssa.UnOp:
+			if x.Op != token.MUL {
+				return false
+			}
+		case *ssa.Store:
+			if x.Addr != ssa.Value(a) {
+				return false
+			}
+		default:
+			return false
+		}
+	}
+	return true
 }
